@@ -187,3 +187,131 @@ specialise(
     bounds="4 survey rows over the 6 structural kinds",
     weight=300,
 )
+
+
+# ---- c: deep nesting chains (template copies for every repeat) -----------------------------
+import itertools as _it  # noqa: E402
+
+
+def c04_chain(chain: str, sib: bool, l0: int, l1: int) -> bool:
+    """
+    vpre: 33 <= l0 <= 126 and l0 != 36 and 33 <= l1 <= 126 and l1 != 36
+    vpost: _ == True
+    """
+    lab = S(l0, l1)
+    rows = []
+    for i, k in enumerate(chain):
+        rows.append({"type": "begin " + ("repeat" if k == "r" else "group"), "name": f"s{i}", "label": lab})
+    rows.append({"type": "text", "name": "q", "label": lab})
+    for i, k in reversed(list(enumerate(chain))):
+        rows.append({"type": "end " + ("repeat" if k == "r" else "group")})
+        if sib and i == len(chain) - 1:
+            rows.append({"type": "integer", "name": "sibq", "label": "S"})
+    survey, _w, _js = build_survey({"survey": rows})
+    root = survey.xml()
+    prim = child_elements(elements(root, "instance")[0])[0]
+    # nesting of the data nodes (template copies removed) equals the sheet nesting
+    want = [("q", [])]
+    for i in reversed(range(len(chain))):
+        inner = want
+        if sib and i == len(chain) - 1:
+            pass
+        want = [(f"s{i}", inner)]
+        if sib and i == len(chain) - 1:
+            want = [(f"s{i}", inner)]
+    # rebuild expected with the sibling placed after the innermost section
+    def exp(i):
+        if i == len(chain):
+            return [("q", [])]
+        kids = exp(i + 1)
+        out = [(f"s{i}", kids)]
+        if sib and i == len(chain) - 1:
+            out.append(("sibq", []))
+        return out
+
+    if M.instance_shape(prim) != exp(0):
+        return False
+    # every repeat has at least one jr:template copy somewhere in the primary instance, and the
+    # data copy (outside templates) is preceded by a template only at the outermost repeat level
+    for i, k in enumerate(chain):
+        if k == "r":
+            copies = [e for e in elements(prim, f"s{i}") if M.is_template(e)]
+            if len(copies) < 1:
+                return False
+            for c in copies:  # a template copy carries the question it will instantiate
+                if len(elements(c, "q")) < 1:
+                    return False
+    # body nesting
+    body = [c for c in child_elements(root) if c.tagName == "h:body"][0]
+    cur = body
+    path = "/data"
+    for i, k in enumerate(chain):
+        path += f"/s{i}"
+        grp = [c for c in child_elements(cur) if c.tagName == "group" and c.getAttribute("ref") == path]
+        if len(grp) != 1:
+            return False
+        cur = grp[0]
+        if k == "r":
+            rp = [c for c in child_elements(cur) if c.tagName == "repeat" and c.getAttribute("nodeset") == path]
+            if len(rp) != 1:
+                return False
+            cur = rp[0]
+    ins = [c for c in child_elements(cur) if c.tagName == "input" and c.getAttribute("ref") == path + "/q"]
+    return len(ins) == 1 and M.closure_violation(root) is None
+
+
+specialise(
+    "C04",
+    "c.nesting",
+    c04_chain,
+    {"chain": ["".join(c) for n in (2, 3) for c in _it.product("gr", repeat=n)]},
+    timeout=400,
+    kernel=K,
+    shims=("S1", "S2", "S3", "S4"),
+    symbolic="a 2-character label tracer on every row; presence of a sibling question after the innermost section (boolean)",
+    bounds="nesting chain of 2-3 sections fixed per instance (all 12 group/repeat chains) around one question",
+    weight=50,
+)
+
+
+# ---- b': appearance cells reach their own control ---------------------------------------------
+def c04_appearance(outer: int, a0: int, a1: int, b0: int, b1: int) -> bool:
+    """
+    vpre: 97 <= a0 <= 122 and 97 <= a1 <= 122 and 97 <= b0 <= 122 and 97 <= b1 <= 122
+    vpost: _ == True
+    """
+    A, B = S(a0, a1), S(b0, b1)
+    kind = ["group", "repeat", "group", "repeat"][outer]
+    table = outer >= 2
+    rows = [
+        {"type": "begin " + kind, "name": "s", "label": "S", "appearance": "table-list" if table else "field-list"},
+        {"type": "select_one l1", "name": "q1", "label": "Q1"},
+        {"type": "end " + kind},
+        {"type": "select_one l1", "name": "q2", "label": "Q2", "appearance": A},
+        {"type": "text", "name": "q3", "label": "Q3", "appearance": B},
+    ]
+    survey, _w, _js = build_survey({"survey": rows, "choices": M.CHOICES})
+    root = survey.xml()
+    prim = child_elements(elements(root, "instance")[0])[0]
+    names = [c.tagName for c in child_elements(prim) if not M.is_template(c)]
+    if names != ["s", "q2", "q3", "meta"]:
+        return False  # no generated helper node may appear outside the table-list section
+    q2 = [e for e in elements(root, "select1") if e.getAttribute("ref") == "/data/q2"]
+    q3 = [e for e in elements(root, "input") if e.getAttribute("ref") == "/data/q3"]
+    if len(q2) != 1 or len(q3) != 1:
+        return False
+    return q2[0].getAttribute("appearance") == A and q3[0].getAttribute("appearance") == B
+
+
+specialise(
+    "C04",
+    "b.appearance",
+    c04_appearance,
+    {"outer": [0, 1, 2, 3]},
+    timeout=300,
+    kernel=K,
+    shims=("S1", "S2", "S3", "S4"),
+    symbolic="two appearance cells of 2 symbolic letters on rows that follow a closed section",
+    bounds="preceding section fixed per instance: field-list group, field-list repeat, table-list group, table-list repeat",
+    weight=40,
+)
